@@ -135,3 +135,43 @@ pub proof fn lemma_join_push(s: Seq<Seq<u8>>, x: Seq<u8>, sep: Seq<u8>)
     reveal_with_fuel(join, 2);
     assert(s.push(x).drop_last() =~= s);
 }
+
+/// more than one piece means the separator occurs
+pub proof fn lemma_split_len_ge2_has_sep(s: Seq<u8>, sep: u8)
+    ensures split(s, sep).len() >= 2 ==> first_index(s, sep, 0) < s.len()
+{
+    lemma_split_count(s, sep);
+    lemma_first_index_none(s, sep, 0);
+    lemma_no_sep_count0(s, sep);
+}
+pub open spec fn count_sep(s: Seq<u8>, sep: u8) -> nat
+    decreases s.len()
+{
+    if s.len() == 0 { 0 } else { count_sep(s.drop_last(), sep) + (if s.last() == sep { 1nat } else { 0nat }) }
+}
+pub proof fn lemma_split_count(s: Seq<u8>, sep: u8)
+    ensures split(s, sep).len() == count_sep(s, sep) + 1
+    decreases s.len()
+{
+    reveal_with_fuel(split, 2);
+    if s.len() > 0 { lemma_split_count(s.drop_last(), sep); }
+}
+pub proof fn lemma_first_index_none(s: Seq<u8>, sep: u8, i: int)
+    requires 0 <= i <= s.len()
+    ensures first_index(s, sep, i) >= s.len() ==> forall|j: int| i <= j < s.len() ==> s[j] != sep,
+    decreases s.len() - i
+{
+    if i < s.len() { lemma_first_index_none(s, sep, i + 1); }
+}
+pub proof fn lemma_no_sep_count0(s: Seq<u8>, sep: u8)
+    ensures (forall|j: int| 0 <= j < s.len() ==> s[j] != sep) ==> count_sep(s, sep) == 0
+    decreases s.len()
+{
+    if s.len() > 0 {
+        lemma_no_sep_count0(s.drop_last(), sep);
+        if forall|j: int| 0 <= j < s.len() ==> s[j] != sep {
+            assert forall|j: int| 0 <= j < s.drop_last().len() implies s.drop_last()[j] != sep by { assert(s.drop_last()[j] == s[j]); }
+            assert(s.last() == s[s.len() - 1]);
+        }
+    }
+}
